@@ -377,17 +377,21 @@ def exhaustiveAround (dr : DonorR α) (node : Nat) (x : V3 α) : ISt × Int × B
 def geomAccept (s : Slots α) : Bool :=
   if InterpConsts.geomAcceptStrict then s.all (fun w => (geomTol : α) <. w) else s.all (fun w => (geomTol : α) <=. w)
 
-/-- the records rank `r` sends: for every target whose `from_proc` is `r` -/
+/-- the records rank `r` sends: for every target whose `from_proc` is `r` AND for which this rank has a donor geometry
+    node (`ref_mpi_rank == from_proc[to_item] && REF_EMPTY != best_node[to_item]`, both in the counting and in the fill
+    loop).  A target no rank has a donor geometry node for (all ranks propose `1e20`, rank 0 wins the tie with
+    `best_node = REF_EMPTY`) is not answered: the receptor corner stays unseeded and the walk / tree stages locate it.
+    History: until /repo 0166523 the fill loop was `RUS(REF_EMPTY, best_node[to_item], "no geom node")` — `REF_FAILURE`
+    for a donor without geometry nodes (finding interp-geom-nodes-donor-without-corners); the model had that branch. -/
 def geomSends (r : Nat) (dr : DonorR α) (targets : List (Int × Int × V3 α)) (who : List Int) (best : List (α × Int)) :
     Except ISt (List (Located α)) :=
   let rec go : List (Int × Int × V3 α) → List Int → List (α × Int) → Except ISt (List (Located α))
     | t :: ts, p :: ps, b :: bs =>
-      if p == (r : Int) then
-        if b.2 == refEmpty then .error .failure
-        else match exhaustiveAround dr b.2.toNat t.2.2 with
-          | (.ok, c, w) =>
-            (go ts ps bs).map (⟨t.1.toNat, t.2.1, c, (r : Int), storeBary dr.d.twod Slots.unwritten w⟩ :: ·)
-          | (e, _, _) => .error e
+      if p == (r : Int) && b.2 != refEmpty then
+        match exhaustiveAround dr b.2.toNat t.2.2 with
+        | (.ok, c, w) =>
+          (go ts ps bs).map (⟨t.1.toNat, t.2.1, c, (r : Int), storeBary dr.d.twod Slots.unwritten w⟩ :: ·)
+        | (e, _, _) => .error e
       else go ts ps bs
     | _, _, _ => .ok []
   go targets who best
